@@ -3,6 +3,7 @@ package props
 import (
 	"context"
 	"fmt"
+	"strings"
 	"sync"
 	"sync/atomic"
 	"testing"
@@ -10,6 +11,7 @@ import (
 
 	"github.com/anishathalye/porcupine"
 	"github.com/fiorix/go-diameter/v4/diam"
+	"github.com/fiorix/go-diameter/v4/diam/dict"
 
 	"verifharness/ev"
 	"verifharness/memnet"
@@ -264,6 +266,81 @@ func TestC09(t *testing.T) {
 			return
 		}
 		c.Event("dispatches", 1)
+	})
+
+	// 2b. one mux, messages bound to different dictionaries (DefaultServeMux behind two
+	//     servers, a mux shared by a server and a client, a Load after traffic started)
+	//     that name the same (application, code) differently or do not know it: every
+	//     message is dispatched by what its own dictionary says, in every order
+	dictXML := func(short string) string {
+		cmd := ""
+		if short != "" {
+			cmd = `<command code="8388100" short="` + short + `" name="Cmd-` + short + `"><request></request><answer></answer></command>`
+		}
+		return `<?xml version="1.0" encoding="UTF-8"?><diameter><application id="0" name="Base">` + cmd + `</application></diameter>`
+	}
+	var dicts []*dict.Parser
+	for _, short := range []string{"XA", "XB", ""} {
+		p, err := dict.NewParser()
+		if err == nil {
+			err = p.Load(strings.NewReader(dictXML(short)))
+		}
+		if err != nil {
+			t.Fatalf("several-dictionaries: %v", err)
+		}
+		dicts = append(dicts, p)
+	}
+	orders3 := permutations(3)
+	rec.Suite("several-dictionaries", len(orders3)*8*2, func(c *ev.Case) {
+		order := orders3[c.I%len(orders3)]
+		bits := (c.I / len(orders3)) % 8
+		req := c.I/(len(orders3)*8) == 0
+		suffix := map[bool]string{true: "R", false: "A"}[req]
+		mux := diam.NewServeMux()
+		f := &fired{}
+		if bits&1 != 0 {
+			mux.Handle("ALL", f.handler(9))
+		}
+		if bits&2 != 0 {
+			mux.Handle("XA"+suffix, f.handler(1))
+		}
+		if bits&4 != 0 {
+			mux.Handle("XB"+suffix, f.handler(2))
+		}
+		fl := uint8(0)
+		if req {
+			fl = diam.RequestFlag
+		}
+		c.Class("several-dictionaries/first=%d/registered=%03b", order[0], bits)
+		for round := 0; round < 2; round++ {
+			for _, di := range order {
+				m := diam.NewMessage(8388100, fl, 0, 1, 1, dicts[di])
+				p, bad := guard(func() { mux.ServeDIAM(nil, m) })
+				got := f.take()
+				reports := drain(mux)
+				if bad {
+					c.Fail(ev.Sig{"op": "panic"}, nil, nil, "ServeDIAM panicked: %s", p)
+					return
+				}
+				// expected: the name handler of this message's dictionary, else the catch-all, else an error report
+				want := 0
+				switch {
+				case di == 0 && bits&2 != 0:
+					want = 1
+				case di == 1 && bits&4 != 0:
+					want = 2
+				case bits&1 != 0:
+					want = 9
+				}
+				if (want == 0 && (len(got) != 0 || reports != 1)) || (want != 0 && (len(got) != 1 || got[0] != want || reports != 0)) {
+					c.Fail(ev.Sig{"op": "wrong-handler", "round": "several-dictionaries"}, nil, nil,
+						"one mux, messages {app 0 code 8388100 request %v} bound to three dictionaries (0: short name XA, 1: short name XB, 2: command unknown) in the order %v, round %d: for the message of dictionary %d the handlers called were %v with %d error reports, expected handler %d (1 = XA%s, 2 = XB%s, 9 = catch-all, 0 = none and one error report); registered %03b",
+						req, order, round, di, got, reports, want, suffix, suffix, bits)
+					return
+				}
+				c.Event("dispatches", 1)
+			}
+		}
 	})
 
 	// 3. a sample of table rows through a real connection
